@@ -345,10 +345,10 @@ class Verdict:
         self.assumptions = []
         self.notes = []
 
-    def violation(self, kind, what, key=None, replay=None, found_input=True):
+    def violation(self, kind, what, key=None, replay=None, found_input=True, value=None):
         """kind: 'impl' (the implementation fails the property's predicate on a concrete input),
         'proof' (obligation no longer checks), 'corr' (model and implementation differ)"""
-        self.violations.append(dict(kind=kind, what=what, key=key, replay=replay or {}, found_input=found_input))
+        self.violations.append(dict(kind=kind, what=what, key=key, replay=replay or {}, found_input=found_input, value=value))
 
     def finish(self):
         known = [k for k in load_known() if k.get("property") == self.prop and k.get("status") == "known"]
@@ -362,9 +362,20 @@ class Verdict:
         concrete = [v for v in self.violations if v["found_input"]]
         abstract = [v for v in self.violations if not v["found_input"]]
         unmatched = []
+        known_vals = {}
         for v in concrete:
             k = next((k for k in known if v["key"] is not None and k.get("key") == v["key"]), None)
+            if k is not None and k.get("cap") is not None:
+                # a listed finding is identified by its key AND its magnitude: a failure of the same class that is
+                # worse than anything seen when the finding was recorded (cap = 10x the clean-tree maximum) is reported
+                val = v.get("value")
+                if val is None or not (val == val) or val > k["cap"]:
+                    if not (k.get("cap_allows_nonfinite") and (val is None or val != val or val == float("inf"))):
+                        k = None
             if k is not None:
+                val = v.get("value")
+                if isinstance(val, float) and val == val and val != float("inf"):
+                    known_vals[k["key"]] = max(known_vals.get(k["key"], 0.0), val)
                 if k["key"] not in seen_known:
                     seen_known.add(k["key"])
                     lines.append("KNOWN-FINDING: property=%s %s" % (self.prop, k.get("what", v["what"])))
@@ -396,7 +407,7 @@ class Verdict:
         cov = dict(self.coverage)
         ev = dict(property_id=self.prop, tier=self.tier, seed=self.seed, level="proof", coverage=cov,
                   assumptions=self.assumptions, wall_s=round(time.time() - self.t0, 2), violations=nviol,
-                  known_findings_reported=sorted(seen_known), notes=self.notes)
+                  known_findings_reported=sorted(seen_known), known_finding_max_values=known_vals, notes=self.notes)
         json.dump(ev, open(os.path.join(out_dir, self.prop + ".json"), "w"), indent=1, default=str)
         for ln in lines:
             print(ln, flush=True)
